@@ -195,6 +195,12 @@ func c11Ops(w *World, d dualAuth, rng *vbase.Rng, length int, capacity uint) []c
 					b[id] = s.msg
 				}
 				ops = append(ops, c11Op{Kind: "batch", Class: "plain-as-batch", Sig: w.assemble(honest(s.ids, s.msg), nil, 0), Batch: b})
+				// ... as a ONE-entry batch filed under an id that did not sign, and with fewer entries than the signature claims
+				other := hotstuff.ID(1 + int(s.ids[0])%n)
+				if n >= 2 {
+					ops = append(ops, c11Op{Kind: "batch", Class: "plain-as-single-entry-batch-other-id", Sig: w.assemble(honest(s.ids, s.msg), nil, 0), Batch: map[hotstuff.ID][]byte{other: s.msg}})
+				}
+				ops = append(ops, c11Op{Kind: "batch", Class: "plain-as-single-entry-batch", Sig: w.assemble(honest(s.ids, s.msg), nil, 0), Batch: map[hotstuff.ID][]byte{s.ids[0]: s.msg}})
 			}
 		case 9: // filler traffic to force evictions
 			for k := 0; k < int(capacity)+1 && k < 6; k++ {
@@ -210,6 +216,7 @@ func c11Ops(w *World, d dualAuth, rng *vbase.Rng, length int, capacity uint) []c
 			if err == nil {
 				ops = append(ops, c11Op{Kind: "verify", Class: "own-signature", Sig: sig, Msg: msg})
 				ops = append(ops, c11Op{Kind: "verify", Class: "own-signature-other-message", Sig: sig, Msg: append([]byte("z"), msg...)})
+				ops = append(ops, c11Op{Kind: "batch", Class: "own-signature-as-single-entry-batch-other-id", Sig: sig, Batch: map[hotstuff.ID][]byte{hotstuff.ID(n + 1): msg}})
 			}
 			// messages related by hashing: the cache works with digests of messages, so a signature over the 32-byte digest of
 			// X must not pass as a signature over X (nor the other way round)
